@@ -193,10 +193,12 @@ fn parse_signed_time_str(timestamp: &str) -> i64 {
     let offset_timestamp = if timestamp_is_neg { 1_usize } else { 0 };
     let dot_idx = timestamp.find('.').unwrap_or(timestamp.len());
 
+    // seconds that do not fit into the us range are treated as a parsing error
     let timestamp_secs_us: i64 = timestamp[offset_timestamp..dot_idx]
         .parse::<i64>()
-        .unwrap_or_default()
-        * (US_PER_SEC as i64);
+        .ok()
+        .and_then(|secs| secs.checked_mul(US_PER_SEC as i64))
+        .unwrap_or_default();
     let timestamp_fraction_us = if dot_idx < timestamp.len() {
         let timestamp_fraction_str = &timestamp[dot_idx + 1..];
         let mut len_fraction = timestamp_fraction_str.len();
@@ -216,7 +218,7 @@ fn parse_signed_time_str(timestamp: &str) -> i64 {
     } else {
         0
     };
-    let timestamp_us = timestamp_secs_us + timestamp_fraction_us;
+    let timestamp_us = timestamp_secs_us.saturating_add(timestamp_fraction_us);
     if timestamp_is_neg {
         -timestamp_us
     } else {
